@@ -5,6 +5,7 @@ import fsgen
 
 class C13(PropertyCheck):
     pid = "C13"
+    source_tables = ["FsConfig"]   # tables / constants regenerated from /repo's source (gen/srctables.py)
     rule = ("streams: corpus (F16: a layer containing a copy of its own absolute path; F18: glob metacharacters in directory names); "
             "every history up to length 2 (thorough 3) over a 13-call alphabet on three colliding paths from five two-layer states; "
             "random histories dominated by list (default pattern, '**/*', '*', '*.<ext>', '**/*.<ext>', '<name>/*') and subdirectories, localized and not, "
